@@ -425,6 +425,8 @@ package ctfe
 //@ ensures [unknown-hash-or-storage-failure-is-an-error] (g1.called && g1.res1 != nil) || (g2.called && g2.res1 != nil) ==> result != nil
 //@ ensures [corrupt-stored-chain-is-an-error] (a1.called && (a1.res1 != nil || len(a1.res0) > 0)) || (a2.called && (a2.res1 != nil || len(a2.res0) > 0)) ==> result != nil
 //@ ensures [encode-failure-is-an-error] (m1.called && m1.res1 != nil) || (m2.called && m2.res1 != nil) ==> result != nil
+//@ ensures [a-healthy-store-and-a-decodable-chain-of-any-length-is-served-precert] ok1 && (!g1.called || (g1.res1 == nil && a1.called && a1.res1 == nil && len(a1.res0) == 0)) && (!m1.called || m1.res1 == nil) ==> result == nil
+//@ ensures [a-healthy-store-and-a-decodable-chain-of-any-length-is-served-cert] !ok1 && ok2 && (!g2.called || (g2.res1 == nil && a2.called && a2.res1 == nil && len(a2.res0) == 0)) && (!m2.called || m2.res1 == nil) ==> result == nil
 //@ at g1 assert [looks-up-the-embedded-hash] g1.hash == after(u1, precertChainHash.IssuanceChainHash) && len(g1.hash) > 0
 //@ at a1 assert [decodes-what-storage-returned] a1.b == g1.res0
 //@ at m1 assert [precert-entry-rebuilt] typeof(m1.val) == ct.PrecertChainEntry && as(m1.val, ct.PrecertChainEntry).PreCertificate == after(u1, precertChainHash.PreCertificate) && (a1.called ==> as(m1.val, ct.PrecertChainEntry).CertificateChain == after(a1, chain)) && (!a1.called ==> as(m1.val, ct.PrecertChainEntry).CertificateChain == nil)
